@@ -437,6 +437,30 @@ func (p *c03) check(e *xp.Node, r *core.Rng, res *core.CaseResult) {
 			res.Fail("C03/"+kind+"/different-result", in, fmt.Sprintf("variant %+v vs %+v", o.out, ref.out))
 		}
 	}
+	// the same expression as the content of a predicate: inside the brackets it is an expression like any other
+	// (an equality at its start is not a key selector that swallows the rest)
+	if xp.CountOps(e) >= 1 && core.Hash(vs[0].src)%3 == 0 {
+		wrap := func(s string) string { return "gone[" + s + "]" }
+		refP := c03Observe(wrap(vs[1].src))
+		res.Ev("variants_compiled", 1)
+		res.Ev("expressions_also_compiled_inside_a_predicate", 1)
+		if refP.cerr == "" {
+			for i, v := range vs[:4] {
+				if i == 1 {
+					continue
+				}
+				o := c03Observe(wrap(v.src))
+				res.Ev("variants_compiled", 1)
+				in := jsonStr(map[string]string{"variant": v.name + " inside a predicate", "src": wrap(v.src), "full_parens": wrap(vs[1].src)})
+				switch {
+				case o.cerr != "":
+					res.Fail("C03/in-predicate/variant-rejected", in, core.Trunc(o.cerr, 400))
+				case o.listing != refP.listing:
+					res.Fail("C03/in-predicate/different-program", in, "listing of variant:\n"+o.listing+"listing of fully parenthesised form:\n"+refP.listing)
+				}
+			}
+		}
+	}
 	// tie the shape to the right value
 	if !hasUnion(e) && !c03HasDotStep(e) && !c03HasAbsPath(e) && ref.out.Err == "" && ref.out.Panic == "" {
 		want := xp.Eval(e, func(pn *xp.Node) xp.Val {
